@@ -191,11 +191,14 @@ macro_rules! observe {
             }
         }
         pairs_ix.retain(|&(a, b)| a <= ixmax && b <= ixmax);
+        // GetAdjacencyMatrix: one matrix per observation, queried for pairs of live nodes
+        let adjm = petgraph::visit::GetAdjacencyMatrix::adjacency_matrix(g);
         let pairs: Vec<Value> = pairs_ix
             .iter()
             .map(|&(a, b)| {
                 json!({
                     "a": a, "b": b,
+                    "adj": if g.node_weight(ni(a)).is_some() && g.node_weight(ni(b)).is_some() { rb(petgraph::visit::GetAdjacencyMatrix::is_adjacent(g, &adjm, ni(a), ni(b))) } else { rnone() },
                     "fe": opt_i(g.find_edge(ni(a), ni(b)).map(|e| e.index())),
                     "ce": g.contains_edge(ni(a), ni(b)),
                     "fu": match g.find_edge_undirected(ni(a), ni(b)) {
